@@ -15,6 +15,27 @@ fn entry(doc: DocId, p0: u32, p1: u32) -> PostingEntry {
   }
 }
 
+fn one(e: PostingEntry) -> Vec<PostingEntry> {
+  let mut v = Vec::with_capacity(1);
+  v.push(e);
+  v
+}
+
+fn pl3(a: PostingEntry, b: PostingEntry, c: PostingEntry) -> Vec<Vec<PostingEntry>> {
+  let mut v = Vec::with_capacity(3);
+  v.push(one(a));
+  v.push(one(b));
+  v.push(one(c));
+  v
+}
+
+fn pl2(a: PostingEntry, b: PostingEntry) -> Vec<Vec<PostingEntry>> {
+  let mut v = Vec::with_capacity(2);
+  v.push(one(a));
+  v.push(one(b));
+  v
+}
+
 fn gap(a: u32, b: u32) -> Option<u32> {
   // tokens between position a and a later position b
   if b > a {
@@ -31,7 +52,7 @@ fn gap(a: u32, b: u32) -> Option<u32> {
 //@ bounds: 3 terms x 2 positions, positions < 16, slop <= 3
 //@ oracle: matches iff some choice of one position per term is strictly increasing and the number of skipped tokens between consecutive terms sums to <= slop (brute force over the 8 choices)
 #[kani::proof]
-#[kani::unwind(5)]
+#[kani::unwind(8)]
 fn c07_phrase_matches_reference_3x2() {
   let p: [u32; 6] = kani::any();
   let mut i = 0;
@@ -42,7 +63,7 @@ fn c07_phrase_matches_reference_3x2() {
   kani::assume(p[0] < p[1] && p[2] < p[3] && p[4] < p[5]);
   let slop: u32 = kani::any();
   kani::assume(slop <= 3);
-  let postings = vec![vec![entry(7, p[0], p[1])], vec![entry(7, p[2], p[3])], vec![entry(7, p[4], p[5])]];
+  let postings = pl3(entry(7, p[0], p[1]), entry(7, p[2], p[3]), entry(7, p[4], p[5]));
   let got = matches_phrase(&postings, 7, slop);
   let mut want = false;
   let mut a = 0;
@@ -73,20 +94,21 @@ fn c07_phrase_matches_reference_3x2() {
 //@ props: C07
 //@ tier: quick
 //@ funcs: query::phrase::matches_phrase
-//@ symbolic: positions of 2 phrase terms (2 sorted positions each, any u32), slop any u32; whether the second term occurs in the document at all
+//@ symbolic: positions of 2 phrase terms (2 sorted positions each, any u32), slop any u32; plus the case where the second term does not occur in the document
 //@ bounds: 2 terms x 2 positions, full u32 range (overflow corner cases)
 //@ oracle: no panic/overflow; matches iff the second term occurs in the document and some pair p<q has q-p-1 <= slop (slop compared as the implementation's documented i32 budget when it fits)
 #[kani::proof]
-#[kani::unwind(5)]
+#[kani::unwind(8)]
 fn c07_phrase_two_terms_full_range() {
   let p: [u32; 4] = kani::any();
   kani::assume(p[0] < p[1] && p[2] < p[3]);
   let slop: u32 = kani::any();
   kani::assume(slop <= i32::MAX as u32);
-  let present: bool = kani::any();
-  let doc2 = if present { 7 } else { 9 };
-  let postings = vec![vec![entry(7, p[0], p[1])], vec![entry(doc2, p[2], p[3])]];
+  let postings = pl2(entry(7, p[0], p[1]), entry(7, p[2], p[3]));
   let got = matches_phrase(&postings, 7, slop);
+  let absent = pl2(entry(7, p[0], p[1]), entry(9, p[2], p[3]));
+  assert!(!matches_phrase(&absent, 7, slop), "C07: phrase matched although one term does not occur in the document");
+  std::mem::forget(absent);
   let mut want = false;
   let mut a = 0;
   while a < 2 {
@@ -101,7 +123,7 @@ fn c07_phrase_two_terms_full_range() {
     }
     a += 1;
   }
-  assert!(got == (present && want), "C07: two-term phrase disagrees with the phrase/slop semantics");
+  assert!(got == want, "C07: two-term phrase disagrees with the phrase/slop semantics");
   kani::cover!(got && p[3] > 0x8000_0000, "large positions");
   std::mem::forget(postings);
 }
